@@ -14,6 +14,7 @@ import (
 	"github.com/cnotch/ipchub/provider/auth"
 	"github.com/cnotch/ipchub/service/flv"
 	"github.com/cnotch/ipchub/service/hls"
+	"github.com/cnotch/ipchub/utils"
 
 	"github.com/cnotch/apirouter"
 	"github.com/cnotch/ipchub/utils/scan"
@@ -129,5 +130,9 @@ func extractStreamPathAndExt(requestPath string) (streamPath, ext string) {
 	ext = path.Ext(requestPath)
 	_, token, _ := scan.NewScanner('/', nil).Scan(requestPath[1:])
 	streamPath = requestPath[1+len(token) : len(requestPath)-len(ext)]
+	// the registry looks streams up by their canonical path; the permission check and the WebSocket
+	// sessions must see that same path, not the spelling of the URL: ServeMux has cleaned the URL, but
+	// ".../live/a/...flv" is the clean URL of the stream path "/live/a/.." (that is "/live")
+	streamPath = utils.CanonicalPath(streamPath)
 	return
 }
